@@ -298,7 +298,8 @@ Fixpoint seq_txn (link : bool) (g : graph) (edges : list (string * string)) : op
 Definition prune_targets (g : graph) : list string :=
   let ts := all_tasks g in
   let eligible t := (negb (t_is_epic t) && done_or_canceled (t_state t))%bool in
-  let remaining ep := existsb (λ t, (negb (t_is_epic t) && negb (eligible t) && String.eqb (t_epic t) ep)%bool) ts in
+  (* Go counts a remaining child only under a non-empty epic id (prune.go: `task.EpicID != ""`) *)
+  let remaining ep := existsb (λ t, (negb (t_is_epic t) && negb (eligible t) && negb (String.eqb (t_epic t) "") && String.eqb (t_epic t) ep)%bool) ts in
   sort_strings (t_id <$> filter (λ t, (if t_is_epic t then negb (remaining (t_id t)) else eligible t) = true) ts).
 
 (** * plan *)
